@@ -826,6 +826,9 @@ func (h *NtfnsHandler) initTaskChan() error {
 	})
 }
 
+// importRetryDelay is the pause before a refused rescan batch (ErrImportingContinuable) is tried again.
+var importRetryDelay = 200 * time.Millisecond
+
 func worker(h *NtfnsHandler) {
 	defer Recover()
 	defer h.quitWg.Done()
@@ -850,6 +853,15 @@ func worker(h *NtfnsHandler) {
 					}
 				}
 				if !fin {
+					if err == ErrImportingContinuable {
+						// the batch was refused because what it read is not (yet) the chain the
+						// follower is synced to: let the follower process the node's announcements
+						// instead of retrying in a tight loop that keeps the write lock busy
+						select {
+						case <-h.quit:
+						case <-time.After(importRetryDelay):
+						}
+					}
 					h.taskChan.PushImport(task.walletId)
 					continue
 				}
